@@ -12,7 +12,6 @@ import (
 
 	"github.com/mdlayher/arp"
 	"github.com/mdlayher/ndp"
-	"golang.org/x/net/ipv6"
 )
 
 // VerifSetInterfaces sets the local interface list (what interfaceScan would have found).
@@ -235,10 +234,13 @@ func verifNDPFakeOf(n *ndpResponder) *VerifNDPFake {
 	return verifNDPFakes[n]
 }
 
-func verifNDPReadFrom(n *ndpResponder) (ndp.Message, *ipv6.ControlMessage, net.IP, error) {
+// (the control message is typed interface{}: naming *ipv6.ControlMessage would make golang.org/x/net a direct dependency
+// of the package and "go test -mod=mod" would rewrite /repo/go.mod; processRequest discards it anyway)
+func verifNDPReadFrom(n *ndpResponder) (ndp.Message, interface{}, net.IP, error) {
 	f := verifNDPFakeOf(n)
 	if f == nil {
-		return n.conn.ReadFrom()
+		m, cm, ip, err := n.conn.ReadFrom()
+		return m, cm, ip, err
 	}
 	for {
 		f.mu.Lock()
@@ -257,10 +259,10 @@ func verifNDPReadFrom(n *ndpResponder) (ndp.Message, *ipv6.ControlMessage, net.I
 	}
 }
 
-func verifNDPWriteTo(n *ndpResponder, m ndp.Message, cm *ipv6.ControlMessage, dst net.IP) error {
+func verifNDPWriteTo(n *ndpResponder, m ndp.Message, cm interface{}, dst net.IP) error {
 	f := verifNDPFakeOf(n)
 	if f == nil {
-		return n.conn.WriteTo(m, cm, dst)
+		return n.conn.WriteTo(m, nil, dst) // the responder never passes a control message
 	}
 	b, err := ndp.MarshalMessage(m)
 	if err != nil {
